@@ -190,9 +190,16 @@ def units():
                          ('erase__rE', ['C03', 'C02', 'C09', 'C19']), ('size__v_c', ['C03', 'C20']), ('empty__v_c', ['C03', 'C20']),
                          ('begin__v_c', ['C03', 'C20']), ('end__v_c', ['C03', 'C20']), ('clear__v', ['C03', 'C02']), ('extract__rE', ['C03', 'C02', 'C19']),
                          ('erase__pE', ['C03', 'C02', 'C09', 'C19']), ('erase__pE_pE', ['C03', 'C02', 'C09', 'C19']), ('extract__pE', ['C03', 'C02', 'C19']),
-                         ('insert__rr%s__node_type' % FS, ['C03', 'C02', 'C09', 'C12', 'C19']), ('insert__pE_rr%s__node_type' % FS, ['C03', 'C02', 'C09', 'C12', 'C19'])]:
+                         ('insert__rr%s__node_type' % FS, ['C03', 'C02', 'C09', 'C12', 'C19']), ('insert__pE_rr%s__node_type' % FS, ['C03', 'C02', 'C09', 'C12', 'C19']),
+                         ('swap__r' + FS, ['C03', 'C02', 'C06', 'C07']), ('ctor__v', ['C03', 'C02', 'C06']), ('ctor__rA', ['C03', 'C02', 'C06']), ('ctor__rGhostCmp_rA', ['C03', 'C02', 'C06']),
+                         ('dtor__v', ['C02', 'C06']), ('reserve__' + fsz, ['C03', 'C07', 'C18']), ('shrink_to_fit__v', ['C03', 'C18']), ('capacity__v_c', ['C03', 'C20']),
+                         ('max_size__v_c', ['C03', 'C20']), ('key_comp__v_c', ['C03', 'C20']), ('value_comp__v_c', ['C03', 'C20'])]:
+            if m == 'ctor__v' and fsz == 'u8':
+                continue        # the default constructor is instantiated for the default (32-bit) FlatSet only
             add('fs.%s.NR.%s' % (m.replace('__', '_').replace(FS, 'FS'), fsz), FS + '__' + m, props, 2, 'StdVectorBase_E_A_' + fsz, fsz, 'ElemNR', tier=tier,
-                throws_reachable=m.startswith('insert'), timeout=(600 if fsz == 'u8' else 2400))
+                throws_reachable=m.startswith(('insert', 'reserve', 'shrink_to_fit')), timeout=(600 if fsz == 'u8' else 2400))
+            if m == 'ctor__rGhostCmp_rA':
+                us[-1]['defs']['FS_CTOR_HAS_CMP'] = '1'
             us[-1]['cfg'] = 'sets17'
             us[-1]['defs']['WITH_SETS'] = '1'
             us[-1]['defs']['FS_T'] = 'struct ' + FS
